@@ -480,17 +480,64 @@ fn mode_bytes(seed: u64, n: u64, files: &[String]) {
         LEB_COUNT.with(|c| c.set(0));
         let _ = m.encode();
         let total = LEB_COUNT.with(|c| c.get());
-        for j in 0..4 {
+        for j in 0..8 {
             let target = rr.below(total as u64) as i64;
-            let mode = 1 + ((j + rr.below(4)) % 4) as u8;
+            let mode = if j < 4 { 1 + ((j + rr.below(4)) % 4) as u8 } else { 5 + rr.below(6) as u8 };
             LEB_HACK.with(|h| h.set((target, mode)));
             LEB_COUNT.with(|c| c.set(0));
             LEB_APPLIED.with(|a| a.set(None));
             let b = m.encode();
             LEB_HACK.with(|h| h.set((-1, 0)));
             let exp = LEB_APPLIED.with(|a| a.get());
-            let kind = match (mode, exp) { (1, _) => "leb:pad-to-max", (2, _) => "leb:too-long", (3, _) => "leb:unused-bits", (_, Some(true)) => "leb:overlong+1", _ => "leb:overlong+1-too-long" };
+            let kind = match (mode, exp) { (1, _) => "leb:pad-to-max", (2, _) => "leb:too-long", (3, _) => "leb:unused-bits", (4, Some(true)) => "leb:overlong+1", (4, _) => "leb:overlong+1-too-long", _ => "leb:value(count/size/index)" };
             byte_case(&mut stats, &format!("b{}-{}l{}", seed, i, j), kind, &b, exp, false);
+        }
+        // tag / reserved / type bytes fixed by the grammar, and plain opcode bytes: replace one of them
+        FIXED_COUNT.with(|c| c.set(0));
+        OPC_COUNT.with(|c| c.set(0));
+        let _ = m.encode();
+        let nfixed = FIXED_COUNT.with(|c| c.get());
+        let nopc = OPC_COUNT.with(|c| c.get());
+        const REPL: [u8; 36] = [0x00, 0x01, 0x02, 0x03, 0x04, 0x05, 0x06, 0x0b, 0x12, 0x1c, 0x25, 0x2a, 0x38, 0x40, 0x41, 0x43, 0x44, 0x5b, 0x60, 0x6f, 0x70,
+                                0x7c, 0x7d, 0x7e, 0x7f, 0x80, 0x8b, 0x99, 0xa8, 0xb2, 0xbf, 0xc0, 0xc4, 0xc5, 0xfc, 0xff];
+        for j in 0..6 {
+            let nb = *rr.pick(&REPL);
+            let tag = j < 4 || nopc == 0;
+            if tag { FIXED_HACK.with(|h| h.set((rr.below(nfixed as u64) as i64, nb))); } else { OPC_HACK.with(|h| h.set((rr.below(nopc as u64) as i64, nb))); }
+            FIXED_COUNT.with(|c| c.set(0));
+            OPC_COUNT.with(|c| c.set(0));
+            let b = m.encode();
+            FIXED_HACK.with(|h| h.set((-1, 0)));
+            OPC_HACK.with(|h| h.set((-1, 0)));
+            byte_case(&mut stats, &format!("b{}-{}t{}", seed, i, j), if tag { "tag:fixed-byte" } else { "tag:opcode-byte" }, &b, None, false);
+        }
+        // constant expressions: global.get as segment offset / global initialiser (allowed only under V0, immutable, right type)
+        if !m.globals.is_empty() {
+            for j in 0..3 {
+                let mut m2 = m.clone();
+                let g = rr.below(m2.globals.len() as u64 + 1) as u32;
+                let kind = match (j, m2.data.len(), m2.elems.len()) {
+                    (0, d, _) if d > 0 => { m2.offset_global = Some((true, rr.below(d as u64) as usize, g)); "constexpr:data-offset-global.get" }
+                    (1, _, e) if e > 0 => { m2.offset_global = Some((false, rr.below(e as u64) as usize, g)); "constexpr:elem-offset-global.get" }
+                    _ => { m2.init_global = Some((rr.below(m2.globals.len() as u64) as usize, g)); "constexpr:global-init-global.get" }
+                };
+                // make the referenced global immutable i32 with a small value half of the time so that V0 can accept
+                if rr.chance(1, 2) && (g as usize) < m2.globals.len() { m2.globals[g as usize] = (false, VT::I32, rr.below(4) as i64); }
+                byte_case(&mut stats, &format!("b{}-{}c{}", seed, i, j), kind, &m2.encode(), None, false);
+            }
+        }
+        // names: lengths at the limits, non-ASCII bytes
+        {
+            let mut m2 = m.clone();
+            let n = *rr.pick(&[99usize, 100, 101, 512, 513]);
+            let mut ex = m2.export_list();
+            let kindsel = rr.below(3);
+            let kind = match kindsel {
+                0 => { ex[0].0 = "e".repeat(n); m2.exports = Some(ex); "name:function-export-length" }
+                1 => { ex.push(("g".repeat(n), 3, 0)); if m2.globals.is_empty() { m2.globals.push((false, VT::I32, 0)); } m2.exports = Some(ex); "name:global-export-length" }
+                _ => { let mut nm = vec![b'n'; n]; if rr.chance(1, 3) { nm[0] = *rr.pick(&[0x80u8, 0xc3, 0xff, 0x7f, 0x00]); } m2.customs.push((nm, rr.bytes(3))); "name:custom-section-name" }
+            };
+            byte_case(&mut stats, &format!("b{}-{}n", seed, i), kind, &m2.encode(), None, false);
         }
         // section-level
         let secs = m.sections();
